@@ -43,7 +43,7 @@ Definition DInv (alg : algo) (d : disp) : Prop :=
   cur_ok d /\ Forall mr_ok (g_sent d) /\
   (n_comp d + N.of_nat (length (inflight d)) = n_disp d)%N /\
   match dispatching d with
-  | None => cur_wg d = None /\ inflight d = [] /\ g_sent d = [] /\ alg_pending alg d = []
+  | None => cur_wg d = None /\ inflight d = [] /\ g_sent d = [] /\ alg_pending alg d = [] /\ has_next d = false
   | Some l =>
     gridrel alg (grid_of l) (placed d ++ alg_pending alg d) /\
     n_disp d = N.of_nat (length (g_sent d)) /\
@@ -66,12 +66,14 @@ Qed.
 Lemma kernel_completed_facts : forall alg d l,
   DInv alg d -> dispatching d = Some l -> kernel_completed d = true ->
   gridrel alg (grid_of l) (map kd_of_sent (g_sent d)) /\ n_disp d = N.of_nat (length (lr_wgs l)) /\
-  n_comp d = n_disp d /\ inflight d = [] /\ cur_wg d = None /\ g_cur d = None /\ alg_pending alg d = [].
+  n_comp d = n_disp d /\ inflight d = [] /\ cur_wg d = None /\ g_cur d = None /\ alg_pending alg d = [] /\
+  has_next d = false.
 Proof.
   intros alg d l [Hcur [Hsent [Hcnt Hd]]] El Hk. rewrite El in Hd. destruct Hd as [Hg [Hnd [Had Hnw]]].
   unfold kernel_completed in Hk. destruct (cur_wg d) eqn:Ew; [discriminate|].
   unfold cur_ok in Hcur. rewrite Ew in Hcur. destruct (g_cur d) eqn:Eg; [tauto|].
-  apply andb_true_iff in Hk. destruct Hk as [Hn Hc]. unfold has_next in Hn.
+  apply andb_true_iff in Hk. destruct Hk as [Hn Hc]. pose proof Hn as Hn0. apply negb_true_iff in Hn0.
+  unfold has_next in Hn.
   apply negb_true_iff, N.ltb_ge in Hn. apply negb_true_iff, N.ltb_ge in Hc.
   unfold placed in Hg. rewrite Eg in Hg. simpl in Hg, Had. rewrite app_nil_r in Hg.
   assert (Hlen : length (grid_of l) = length (lr_wgs l)) by apply enum_from_length.
@@ -91,7 +93,7 @@ Proof.
   intros c x y H HD. destruct H; simpl in *.
   - (* internal *)
     destruct (core_fields _ _ H) as [E1 [E2 [E3 [E4 [E5 [E6 [E7 [E8 [E9 [E10 [E11 [E12 E13]]]]]]]]]]]].
-    unfold DInv, cur_ok, placed in *. rewrite E1, E2, E4, E5, E6, E9, E10, E12, E13, H0. exact HD.
+    unfold DInv, cur_ok, placed, has_next in *. rewrite E1, E2, E4, E5, E6, E9, E10, E12, E13, H0. exact HD.
   - exact HD.
   - (* place *)
     destruct (core_fields _ _ H4) as [E1 [E2 [E3 [E4 [E5 [E6 [E7 [E8 [E9 [E10 [E11 [E12 E13]]]]]]]]]]]].
@@ -129,7 +131,7 @@ Proof.
     + apply Hbase.
     + specialize (Hbase (cycle_left d)). unfold DInv, cur_ok, placed in *. simpl in *. exact Hbase.
   - (* response *)
-    destruct (kernel_completed_facts _ _ _ HD H H0) as [Hg [Hnd [Hnc [Hi [Hw [Hgc Hp]]]]]].
+    destruct (kernel_completed_facts _ _ _ HD H H0) as [Hg [Hnd [Hnc [Hi [Hw [Hgc [Hp Hhn]]]]]]].
     destruct HD as [Hcur [Hsent [Hcnt Hd]]].
     unfold DInv, cur_ok, placed in *. simpl. rewrite Hw, Hgc, Hi in *. simpl.
     split; auto. split; [constructor|]. split; [lia|]. auto.
@@ -149,7 +151,7 @@ Proof.
   - left. destruct (core_fields _ _ H) as [E1 _]. auto.
   - left. destruct (core_fields _ _ H4) as [E1 _]. simpl in E1. auto.
   - left. repeat split; auto. unfold complete_d. destruct (_ =? _)%N; reflexivity.
-  - right. destruct (kernel_completed_facts _ _ _ HD H H0) as [Hg [Hnd [Hnc [Hi [Hw [Hgc Hp]]]]]].
+  - right. destruct (kernel_completed_facts _ _ _ HD H H0) as [Hg [Hnd [Hnc [Hi [Hw [Hgc [Hp Hhn]]]]]]].
     destruct HD as [_ [Hsent _]].
     exists l, (mkFin l (g_sent d) (n_disp d) (n_comp d)). simpl. repeat split; auto.
 Qed.
@@ -236,7 +238,7 @@ Lemma start_DInv : forall c ncu d l,
   (is_partition (c_alg c) = true -> 0 < ncu) ->
   DInv (c_alg c) d -> dispatching d = None -> DInv (c_alg c) (start_dispatching c ncu d l).
 Proof.
-  intros c ncu d l Hn [Hcur [Hsent [Hcnt Hd]]] El. rewrite El in Hd. destruct Hd as [Hw [Hi [Hs Hp]]].
+  intros c ncu d l Hn [Hcur [Hsent [Hcnt Hd]]] El. rewrite El in Hd. destruct Hd as [Hw [Hi [Hs [Hp _]]]].
   unfold cur_ok in Hcur. rewrite Hw in Hcur. destruct (g_cur d) eqn:Eg; [tauto|].
   assert (Ha : is_partition (c_alg c) = false -> a_cur d = None).
   { intros Hf. unfold alg_pending in Hp. destruct (c_alg c); try discriminate;
@@ -262,7 +264,7 @@ Qed.
 
 Lemma cpstep_CPInv : forall s s', cpstep s s' -> CPInv s -> CPInv s' /\ cfg s' = cfg s.
 Proof.
-  intros s s' H HI. destruct HI as [HD HH HS HR]. destruct H.
+  intros s s' H HI. destruct HI as [HD HH HS HR]. destruct H as [H|H]; destruct H.
   - (* a step of one dispatcher *)
     inversion H as [s0 s0' ds1 d d' ds2 Hst]; subst.
     match goal with E : _ ++ _ :: _ = disps s |- _ => rewrite <- E in *; clear E end.
